@@ -8,6 +8,7 @@ import (
 	"fmt"
 	"net"
 	"net/http"
+	"net/url"
 	"reflect"
 	"runtime"
 	"sort"
@@ -140,6 +141,7 @@ type bscript struct {
 
 type rreq struct {
 	brokenBody bool // the chunked encoding of the body is broken
+	unsendable bool // what the proxy makes of this request cannot be sent by the transport (its fault or the client's, never the backend's)
 	id         int
 	method     string
 	path       string // raw (escaped) path after the site, starting with the proxy base
@@ -190,6 +192,7 @@ type relayRig struct {
 	mode        string // C04 | C17 (a limits directive in front of the proxy)
 	limit       int    // C17: body limit on /api
 	hosts       int    // upstream hosts (2 = retries enabled: the body is buffered first)
+	pathRule    bool   // a header_upstream rule copies {path} into a field
 	deadFirst   bool   // the first of two hosts refuses connections: every request is retried at the second
 	cutFirst    bool   // the first of two hosts accepts, reads the beginning of the request and resets the connection
 
@@ -590,6 +593,12 @@ func runRelayIn(c *sim.Ctl, mode string) {
 	}
 	r.regexRules = pick(25)
 	r.countFails = r.hosts == 1 && !r.faults && mode == "C04" && pick(40)
+	if r.countFails && pick(50) {
+		// a rule that copies decoded request text into a header field (as "transparent"-like set-ups
+		// do for the original path): a request may then be impossible to put on the wire
+		r.upRules = append(r.upRules, [2]string{"X-Up-Path", "{path}"})
+		r.pathRule = true
+	}
 	var b strings.Builder
 	b.WriteString("http://r.test:0 {\n\tbind 127.0.0.1\n\tsimnet v0\n")
 	if r.limit > 0 {
@@ -717,6 +726,12 @@ func (r *relayRig) addReq(i int) {
 	if pick(10) {
 		q.path = "/API" + q.path[4:] // the proxied path matches without regard to letter case, and so does its 'without' prefix
 	}
+	if r.pathRule && pick(20) {
+		// the decoded path contains a line feed: as a header value it is refused by the transport
+		q.path = "/api/a%0Ab"
+		q.unsendable, q.aborted = true, true // (judged like a client that does not complete its request: only the backend's failure count matters)
+		r.c.Fault("request-the-transport-refuses-to-send")
+	}
 	q.query = []string{"", "a=1", "a=1&b=%20x&c", "q=%2F%3F", "x=1;y=2"}[st.Draw(5)]
 	q.srcIP = fmt.Sprintf("10.1.0.%d", 1+st.Draw(5))
 	q.hdrs = append(q.hdrs, [2]string{"X-Req", fmt.Sprint(i)})
@@ -782,6 +797,13 @@ func (r *relayRig) addReq(i int) {
 			q.body[k] = byte('A' + (k*5+i)%26)
 		}
 		q.chunked = bl > 0 && pick(40)
+		if q.chunked && r.countFails && !q.unsendable && pick(12) {
+			// the client announces a trailer whose name is no token: net/http's server lets it pass,
+			// its transport refuses to send it on
+			q.hdrs = append(q.hdrs, [2]string{"Trailer", "not a token"})
+			q.unsendable, q.aborted = true, true
+			r.c.Fault("request-the-transport-refuses-to-send")
+		}
 		if bl > 0 && pick(15) {
 			// the client announces it would wait for a 100 (it sends the body without waiting, as it may)
 			q.hdrs = append(q.hdrs, [2]string{"Expect", "100-continue"})
@@ -968,6 +990,10 @@ func (q *rreq) expand(v string) string {
 	v = strings.ReplaceAll(v, "{remote}", q.srcIP)
 	v = strings.ReplaceAll(v, "{>X-Req}", fmt.Sprint(q.id))
 	v = strings.ReplaceAll(v, "{method}", q.method)
+	if strings.Contains(v, "{path}") {
+		p, _ := url.PathUnescape(q.path)
+		v = strings.ReplaceAll(v, "{path}", p)
+	}
 	return v
 }
 
